@@ -48,7 +48,8 @@ pub fn small_policy() -> Policy {
     p.worker_key_change_delay = 3;
     p.consensus_fault_ineligibility_duration = 3;
     p.min_sector_expiration = 72;
-    p.max_sector_expiration_extension = 960;
+    // must exceed the hard-coded 30-day maximum prove-commit duration or pre-commits can never validate
+    p.max_sector_expiration_extension = 100_000;
     p.pre_commit_challenge_delay = 2;
     p.max_pre_commit_randomness_lookback = 24 + 3;
     p.expired_pre_commit_clean_up_delay = 4;
@@ -444,4 +445,38 @@ pub fn repay_debt(vm: &Vm, by: ActorID, m: ActorID, value: &TokenAmount) -> Inv 
 
 pub fn withdraw(vm: &Vm, by: ActorID, m: ActorID, amount: &TokenAmount) -> Inv {
     ext(vm, by, &id(m), &TokenAmount::zero(), MinerMethod::WithdrawBalance as u64, Some(&fil_actor_miner::WithdrawBalanceParams { amount_requested: amount.clone() }))
+}
+
+/// Pre-commit a committed-capacity sector (no deals, empty CommD).
+pub fn precommit(vm: &Vm, by: ActorID, m: ActorID, number: u64, expiration: ChainEpoch) -> Inv {
+    let p = fil_actor_miner::PreCommitSectorBatchParams2 {
+        sectors: vec![fil_actor_miner::SectorPreCommitInfo {
+            seal_proof: SEAL_PROOF,
+            sector_number: number,
+            sealed_cid: make_sealed_cid(format!("sealed-{m}-{number}").as_bytes()),
+            seal_rand_epoch: vm.epoch() - 1,
+            deal_ids: vec![],
+            expiration,
+            unsealed_cid: fil_actor_miner::CompactCommD::empty(),
+        }],
+    };
+    ext(vm, by, &id(m), &TokenAmount::zero(), MinerMethod::PreCommitSectorBatch2 as u64, Some(&p))
+}
+
+/// Prove-commit pre-committed committed-capacity sectors (one proof per sector, no pieces).
+pub fn prove_commit3(vm: &Vm, by: ActorID, m: ActorID, numbers: &[u64], bad: bool) -> Inv {
+    let p = fil_actor_miner::ProveCommitSectors3Params {
+        sector_activations: numbers.iter().map(|n| fil_actor_miner::SectorActivationManifest { sector_number: *n, pieces: vec![] }).collect(),
+        sector_proofs: numbers.iter().map(|_| RawBytes::new(if bad { mcvm::BAD_PROOF.to_vec() } else { vec![7u8; 192] })).collect(),
+        aggregate_proof: RawBytes::default(),
+        aggregate_proof_type: None,
+        require_activation_success: false,
+        require_notification_success: false,
+    };
+    ext(vm, by, &id(m), &TokenAmount::zero(), MinerMethod::ProveCommitSectors3 as u64, Some(&p))
+}
+
+/// Earliest expiration a pre-commit may declare at `now` under `policy`.
+pub fn min_precommit_expiration(policy: &Policy, now: ChainEpoch) -> ChainEpoch {
+    now + fil_actor_miner::max_prove_commit_duration(policy, SEAL_PROOF).unwrap() + policy.min_sector_expiration
 }
